@@ -6,7 +6,8 @@
   The witness set is viewed as: number of Plutus scripts per language in the witness set
   (`none` = field absent, `some 0` = present and empty, possible only for the `Option<Vec<_>>`
   fields of Alonzo/Babbage) and the redeemers (`none` = absent). The `u64` accumulators are
-  `Nat`s with the dev-profile overflow check made explicit: `mem += x` past `2^64 - 1` is `panic`.
+  `Nat`s; `checked_add(..).ok_or(TxExUnitsExceeded)` makes a sum past `2^64 - 1` the `exceeded` verdict (it was an
+  overflow panic before the C33 `fix:`). `Res.panic` is kept as a constructor and shown unreachable in `Props/C33.lean`.
 -/
 namespace PallasVerif.ExUnits
 
@@ -59,7 +60,7 @@ def presence : Era → Wits → Bool
   | .babbage, w => (w.v1.getD 0 != 0) || (w.v2.getD 0 != 0)      -- `.clone().unwrap_or_default()`, `!is_empty() || !is_empty()`
   | .conway, w => (w.v1.getD 0 != 0) || (w.v2.getD 0 != 0) || (w.v3.getD 0 != 0)
 
-/-- the `for` loop: `mem += ex_units.mem; steps += ex_units.steps;` on `u64` with overflow checks -/
+/-- the `for` loop: `mem = mem.checked_add(..).ok_or(TxExUnitsExceeded)?; steps = ..` on `u64`; `none` = a sum left `u64` -/
 def accumulate : Nat → Nat → List ExU → Option (Nat × Nat)
   | m, s, [] => some (m, s)
   | m, s, x :: xs =>
@@ -70,7 +71,7 @@ def accumulate : Nat → Nat → List ExU → Option (Nat × Nat)
 /-- sums, then `if mem > max.mem || steps > max.steps { Err(TxExUnitsExceeded) }` -/
 def sumAndCompare (bs : List ExU) (maxMem maxSteps : Nat) : Res :=
   match accumulate 0 0 bs with
-  | none => .panic
+  | none => .exceeded
   | some (m, s) => if m > maxMem || s > maxSteps then .exceeded else .ok
 
 def checkTxExUnits : Era → Wits → Nat → Nat → Res
